@@ -153,6 +153,9 @@ def check(chk):
     # walked in list order (shared with C02 / C13)
     from .common import index_key_order
     index_key_order(chk, "LAYOUT.index_keys", ("coords_in", "transformers"))
+    # transposing the dimensions of transform data changes nothing: the stacker stacks with the lists recorded at fit
+    _c02._stack_transform_dims(_RL(chk, "MIRROR.state.stack", "LAYOUT.stack"))
+    _c02._dataset_layout(_RL(chk, "MIRROR.state.stack", "LAYOUT.stack"), "MIRROR.state.stack.dataset_layout")
     pm = chk.pm
     concrete = pm.concrete_models() + pm.exported_classes("preprocessing")
     cfg_cache: dict = {}
